@@ -311,6 +311,17 @@ def _touch(msg, what):
         _ = repr(msg)
 
 
+def _mk_neighbours():
+    from hippolyzer.lib.base.datatypes import UUID
+    from hippolyzer.lib.base.message.message import Message, Block
+    a = Message("AgentPause", Block("AgentData", AgentID=UUID(int=1), SessionID=UUID(int=2), SerialNum=1), packet_id=900001)
+    b = Message("CompletePingCheck", Block("PingID", PingID=7), packet_id=900002)
+    return [bytes(SER.serialize(a)), bytes(SER.serialize(b))]
+
+
+_NEIGHBOURS = _mk_neighbours()
+
+
 def laws(ctx, case):
     dg0 = ref_datagram(case["msg"])
     dg = apply_mutations(case["msg"], dg0, [tuple(m) for m in case["muts"]])
@@ -348,6 +359,13 @@ def laws_on_datagram(ctx, dg, deferred, inspect, classes, ref_name=None):
         if ref_name is not None:
             out.append(("decode:reference-datagram-refused", "%s: reference-encoded datagram refused: %r" % (ref_name, e)))
         return out
+    if len(dg) % 2:
+        # datagrams do not arrive alone: another one (of another type) is received before anybody looks into this one
+        try:
+            DESERS[deferred].deserialize(_NEIGHBOURS[1] if msg.name == "AgentPause" else _NEIGHBOURS[0])
+            classes.append("neighbour_in_between")
+        except Exception:
+            pass
     # what does the format say about this body?
     status, has_nan, wname = "unknown", False, None
     canon = True
@@ -443,6 +461,7 @@ def shards(tier):
         sh.append({"kind": "gen", "n": 9000 if th else 900})
     for i in range(4):
         sh.append({"kind": "zc", "n": 6000 if th else 600})
+    sh.append({"kind": "zero_runs"})
     if th:
         for i in range(4):
             sh.append({"kind": "atheris", "runs": 150000, "offset": i})
@@ -453,6 +472,19 @@ def run_shard(ctx, shard):
     if shard["kind"] == "atheris":
         from vlib.fuzz import run_campaign
         run_campaign(ctx, "checks.c02", shard["runs"], 1200, fuzz_corpus(), "datagram", shard["offset"])
+        return
+    if shard["kind"] == "zero_runs":
+        # zero-coded messages whose body has a run of zeros of exactly / just around the lengths at which the run-length byte wraps
+        for n_zero in (253, 254, 255, 256, 257, 509, 510, 511, 764, 765, 766, 1020):
+            for lead in (b"\x07", b"\x07\x00\x07"):
+                # a Variable-2 field: [2 length bytes][bytes]; the run sits between a non-zero byte of the field and the non-zero byte after it
+                msg = {"name": "ChatFromViewer", "flags": 0x80, "pid": 1000 + n_zero, "acks": [], "extra": b"", "fill": False,
+                       "blocks": [["AgentData", [{"AgentID": "%032x" % 0x0101010101, "SessionID": "1" * 32}]],
+                                  ["ChatData", [{"Message": lead + bytes(n_zero), "Type": 1, "Channel": 0x01010101}]]]}
+                for deferred, inspect in ((True, ["blocks"]), (False, ["never"]), (True, ["to_dict", "blocks"])):
+                    res = laws(ctx, {"msg": msg, "muts": [], "deferred": deferred, "inspect": inspect})
+                    if res:
+                        ctx.report({"msg": msg, "muts": [], "deferred": deferred, "inspect": inspect}, res)
         return
     strat = CASE if shard["kind"] == "gen" else CASE_ZC
     hyp_run(ctx, strat, lambda case: laws(ctx, case), shard["n"])
